@@ -2,6 +2,10 @@ import CookModel.Lemmas.Lexer
 import CookModel.Lemmas.Text
 import CookModel.Lemmas.LexLaws
 import CookModel.Lemmas.Blocks
+import CookModel.Lemmas.Spans
+import CookModel.Lemmas.SpansDoc
+import CookModel.Lemmas.SpansFront
+import CookModel.Lemmas.SpansMeta
 /-
   C04  Every reported source location is in bounds, on char boundaries, faithful.
 
@@ -145,5 +149,164 @@ example :
     (parseFrontmatter ⟨fun c => c == ' ', fun _ => false, fun _ => true, fun c => c == ' ' || c == '\n', fun _ => true⟩
         "\n---\né: 1\n--- \nx".toList).map (fun fm => (fm.yamlText, fm.yamlOffset, fm.cookText, fm.cookOffset)) =
       some ("é: 1\n".toList, 5, ['x'], 16) := by decide
+
+/-! ### positions and spans (definitions `Boundary`, `SpanOK`, `TextOK` in Lemmas/Spans.lean) -/
+
+/-- In a run of adjacent tokens laid out from `off` (a block, or the whole token stream), with `w`
+    the text the tokens cover: every token start and end is a character boundary of `w`; so is the
+    value `current_offset` returns at every cursor position `i` (the end of the last parsed token,
+    or the start of the block); and `tokens_span` of every non-empty contiguous sub-slice is a span
+    of two boundaries with `start ≤ end`.  No position the block parser derives from tokens can
+    fall inside a multi-byte character or outside the text. -/
+theorem C04_token_positions_are_boundaries {α : Type} [Arith α] (off : Nat) (ts : List Tok) (h : Chain off ts) :
+    (∀ t ∈ ts, Boundary off (ts.flatMap (·.text)) t.start ∧ Boundary off (ts.flatMap (·.text)) t.stop) ∧
+    (∀ i, Boundary off (ts.flatMap (·.text)) (lastStop off (ts.take i))) ∧
+    (ts ≠ [] → ∀ s : BP α, s.toks = ts →
+      Boundary off (ts.flatMap (·.text)) (currentOffset s).1) ∧
+    (∀ i j, i < j → j ≤ ts.length → SpanOK off (ts.flatMap (·.text)) (tokensSpan (slice ts i j))) := by
+  have he := Emb.self off ts
+  have pos : ∀ i, Boundary off (ts.flatMap (·.text)) (lastStop off (ts.take i)) :=
+    fun i => (Emb.slice h he (Nat.le_refl i)).2.start
+  refine ⟨?_, pos, ?_, ?_⟩
+  · intro t ht
+    obtain ⟨i, hi, rfl⟩ := List.mem_iff_getElem.mp ht
+    obtain ⟨c, e⟩ := Emb.slice h he (Nat.le_succ i)
+    rw [slice_one (List.getElem?_eq_getElem hi)] at c e
+    have hs := e.spanOK c
+    rw [← c.1] at hs
+    exact ⟨hs.1, by simpa [lastStop] using hs.2.1⟩
+  · intro hne s hs
+    rw [currentOffset_run, hs]
+    have hb : baseOff ts = off := by
+      cases ts with
+      | nil => exact absurd rfl hne
+      | cons t r => simpa [baseOff] using h.1
+    show Boundary off _ (offAt ts s.cur)
+    unfold offAt; rw [hb]; exact pos _
+  · intro i j hij hj
+    obtain ⟨c, e⟩ := Emb.slice h he (Nat.le_of_lt hij)
+    apply e.tokensSpan c
+    intro h0
+    have := slice_length ts i j
+    rw [h0] at this
+    simp at this; omega
+
+/-- The text `BlockParser::text` assembles from any contiguous sub-slice `b[i..j]` of a block, called
+    with the offset where the slice starts: its span is made of two character boundaries of the
+    block's text with `start ≤ end`; every fragment's span is too, and the fragment's content is
+    exactly the source slice at its offset; and for an empty text the span is the empty span at the
+    given offset. -/
+theorem C04_text_spans_ok (off : Nat) (b : List Tok) (h : Chain off b) (he : EscapedOK b)
+    (i j : Nat) (hij : i ≤ j) :
+    let w := b.flatMap (·.text)
+    let o := lastStop off (b.take i)
+    let t := buildText o (slice b i j)
+    SpanOK off w t.span ∧
+    (∀ f ∈ t.frags, SpanOK off w ⟨f.offset, f.stop⟩ ∧ SliceAt off w f.offset f.text) ∧
+    (t.frags = [] → t.span = Span.pos o) := by
+  intro w o t
+  have hr : RunIn off w off b := ⟨⟨h, he⟩, Emb.self off b⟩
+  have ht := (hr.slice hij).text
+  refine ⟨ht.1, fun f hf => ⟨ht.frag_span f hf, ht.2 f hf⟩, ?_⟩
+  intro h0
+  show Text.span t = _
+  unfold Text.span
+  rw [h0]
+  show Span.pos (buildText o (slice b i j)).emptyOff = _
+  rw [buildText_emptyOff]
+
+/-! non-vacuity: a two-byte character before a token; position 1 (inside `é`) is not a boundary -/
+example : ¬ Boundary 0 ['é', 'x'] 1 := by
+  rintro ⟨pre, suf, h1, h2⟩
+  match pre, h1, h2 with
+  | [], _, h2 => simp [utf8Len] at h2
+  | [c], h1, h2 =>
+    simp only [List.cons_append, List.nil_append, List.cons.injEq] at h1
+    rw [← h1.1] at h2; revert h2; decide
+  | c :: d :: r, h1, h2 =>
+    simp only [List.cons_append, List.cons.injEq] at h1
+    rw [← h1.1, ← h1.2.1] at h2
+    simp [utf8Len] at h2
+    have : 'é'.utf8Size = 2 := by decide
+    omega
+example : SpanOK 0 ['é', 'x'] ⟨2, 3⟩ :=
+  ⟨⟨['é'], ['x'], rfl, by decide⟩, ⟨['é', 'x'], [], rfl, by decide⟩, by decide⟩
+
+/-! ### spans of events and diagnostics (`EvSpansOK`, `TopInv` in Lemmas/SpansEv.lean) -/
+
+/-- **One block.**  Let `blk` be a block: a non-empty run of adjacent tokens that is a piece of the
+    text `w` laid out from `off` (`WFI`; every block the splitter cuts from the token stream is
+    one), and let position 0 be a boundary of the text (i.e. `off = 0`: the text is the whole
+    document; needed only for the recovered timer quantity whose spans are the documented `(0, 0)`).
+    Then every event `parse_block` pushes — text, ingredient, cookware, timer, metadata, section,
+    and every error and warning — has all its spans `SpanOK off w`: the component span, the
+    modifiers span, the intermediate-reference span, the quantity, value and scaling-lock spans,
+    the spans of name/alias/note/unit/key/value texts and of each of their fragments (whose
+    contents are the source slices at their offsets), and EVERY label of every diagnostic
+    (`EvSpansOK`); and the content events are in source order without overlapping, all ending at or
+    before the end of the block.  The proof goes through every parser of the block parser
+    (`parseQuantity`, `parseRegularQuantity`, `parseAdvancedQuantity`, `compBody*`, `noteP`,
+    `parseInterRef`, `parseModifiers`, `parseAlias`, `ingredientP`, `cookwareP`, `timerP` with
+    `checkNoteTimer`, `stepOne`, `parseStep`, `parseTextBlock`, `sectionP`, `metadataEntry`,
+    `parseBlock`): lemmas `…_ev` of Lemmas/SpansEv.lean. -/
+theorem C04_block_event_spans_ok {α : Type} [Arith α] (cs : CharSpec) (ext : Ext) (oldStyle : Bool)
+    (off : Nat) (w : List Char) (blk : List Tok) (hw : WFI off w blk) (hz : Boundary off w 0) :
+    (∀ ev ∈ (runBlock (α := α) cs ext oldStyle blk #[] none).1.toList, EvSpansOK off w ev) ∧
+    SrcOrdered (runBlock (α := α) cs ext oldStyle blk #[] none).1.toList ∧
+    (∀ ev ∈ (runBlock (α := α) cs ext oldStyle blk #[] none).1.toList, ∀ sp, ev.srcSpan = some sp →
+      sp.stop ≤ offAt blk blk.length) := by
+  have h := runBlock_ev (α := α) cs ext oldStyle blk #[] hw hz (topInv_empty (baseOff blk)) (Nat.le_refl _)
+  exact ⟨h.ok, h.ord, h.bound⟩
+
+/-- the block hypothesis is satisfiable: `@é` at offset 3 of the text `ab @é` -/
+example : WFI 0 "ab @é".toList [⟨.at, ['@'], 3⟩, ⟨.word, ['é'], 4⟩] :=
+  ⟨by simp, ⟨⟨⟨rfl, by decide, trivial⟩, by intro t ht hk; simp at ht; rcases ht with rfl | rfl <;> simp at hk⟩,
+    ⟨"ab ".toList, [], by decide, by decide⟩⟩⟩
+
+/-- `SrcOrdered` is not vacuous: two texts in the wrong order are rejected -/
+example : ¬ SrcOrdered [Ev.text (α := Rat) ⟨[⟨['a'], 5, false⟩], 5, false⟩,
+    Ev.text ⟨[⟨['b'], 0, false⟩], 0, false⟩] := by
+  intro h
+  have := (List.pairwise_cons.mp h).1 (Ev.text ⟨[⟨['b'], 0, false⟩], 0, false⟩) (by simp) _ _ rfl rfl
+  revert this; decide
+
+/-- The offsets of the front-matter split: when the input has front matter, the cooklang part is a
+    suffix of the input and its offset (the `TokenStream` offset) is the byte length of what
+    precedes it; the YAML text is the input slice at its offset. -/
+theorem C04_frontmatter_offsets_ok (cs : CharSpec) (s : List Char) : FrontMatterOffsetsOK cs s :=
+  frontMatterOffsetsOK cs s
+
+/-- `FrontMatterOffsetsOK` is about something: this input has front matter -/
+example : (parseFrontmatter toyCharSpec "---\n---\nb".toList).isSome = true := by decide
+
+/-- **Every reported source location of a document is in bounds, on character boundaries and
+    faithful**: for every input `s`, every event and diagnostic `PullParser` produces has all its
+    spans — component, modifiers, intermediate reference, quantity, value, scaling lock, the texts
+    (name, alias, note, unit, metadata key and value, section name, front matter) and each of their
+    fragments, and every label of every error and warning — inside `s`, starting and ending on
+    character boundaries of `s`, with `start ≤ end`; and every text fragment's content equals the
+    input slice at its span.  (The recovered timer quantity carries the documented span `(0, 0)`,
+    which is such a span of the document.) -/
+theorem C04_event_spans_ok {α : Type} [Arith α] (cs : CharSpec) (ext : Ext) (s : List Char) :
+    ∀ ev ∈ (pullEvents (α := α) cs ext s).1.toList, EvSpansOK 0 s ev := by
+  obtain ⟨b, h⟩ := pullEvents_topInv (α := α) cs ext s (frontMatterOffsetsOK cs s)
+  exact h.ok
+
+/-- **The events of a document appear in source order without overlapping**: the spans of the
+    content events (text, ingredient, cookware, timer, metadata entry, section) are pairwise
+    ordered, each starting at or after the end of every earlier one. -/
+theorem C04_events_in_source_order {α : Type} [Arith α] (cs : CharSpec) (ext : Ext) (s : List Char) :
+    SrcOrdered (pullEvents (α := α) cs ext s).1.toList := by
+  obtain ⟨b, h⟩ := pullEvents_topInv (α := α) cs ext s (frontMatterOffsetsOK cs s)
+  exact h.ord
+
+/-- The same for the metadata-only scanner (`into_meta_iter`): every span of every event and
+    diagnostic it produces is inside the input on character boundaries, texts are faithful, and
+    the metadata entries appear in source order. -/
+theorem C04_meta_event_spans_ok {α : Type} [Arith α] (cs : CharSpec) (ext : Ext) (s : List Char) :
+    (∀ ev ∈ (pullMetaEvents (α := α) cs ext s).1.toList, EvSpansOK 0 s ev) ∧
+    SrcOrdered (pullMetaEvents (α := α) cs ext s).1.toList := by
+  obtain ⟨b, h⟩ := pullMetaEvents_topInv (α := α) cs ext s
+  exact ⟨h.ok, h.ord⟩
 
 end Cook
